@@ -114,3 +114,121 @@ Section CondProofs.
     exists k, k <= rm_max (crm_rm (cdm_get s d)) /\ path (crm_edge cond (cdm_get s d) d) k a b.
   Proof. intros. unfold cdm_has_link. rewrite cond_reach. simpl. tauto. Qed.
 End CondProofs.
+
+(* ------------------------------------------------------------------------------------------ *)
+(* ConditionalDomainManager over histories                                                     *)
+
+Definition cdm_inv (s : cdm_state) : Prop :=
+  forall d rm, alookup d (cdm_cache s) = Some rm -> rm_max (crm_rm rm) = cdm_max s.
+
+Lemma cdm_get_max : forall s d, cdm_inv s -> rm_max (crm_rm (cdm_get s d)) = cdm_max s.
+Proof.
+  intros s d I. unfold cdm_get. destruct (alookup d (cdm_cache s)) eqn:C; [apply (I d c C) | reflexivity].
+Qed.
+
+Lemma cdm_get_put : forall s d0 x d, cdm_get (cdm_put s d0 x) d = if N.eqb d d0 then x else cdm_get s d.
+Proof.
+  intros s d0 x d. unfold cdm_get, cdm_put. simpl. destruct (N.eqb d d0) eqn:E.
+  - apply N.eqb_eq in E. subst. rewrite alookup_aset_eq. reflexivity.
+  - apply N.eqb_neq in E. rewrite alookup_aset_neq by exact E. reflexivity.
+Qed.
+
+Lemma cdm_inv_put : forall s d0 x, cdm_inv s -> rm_max (crm_rm x) = cdm_max s -> cdm_inv (cdm_put s d0 x).
+Proof.
+  intros s d0 x I Hx d rm. unfold cdm_put. simpl. destruct (N.eq_dec d d0) as [->|Hne].
+  - rewrite alookup_aset_eq. intro H; inversion H; subst. exact Hx.
+  - rewrite alookup_aset_neq by exact Hne. apply I.
+Qed.
+
+Lemma alookup_map : forall (g : crm_state -> crm_state) d m,
+  alookup d (map (fun e : name * crm_state => (fst e, g (snd e))) m) = option_map g (alookup d m).
+Proof.
+  intros g d m. induction m as [|[k v] m IH]; simpl; [reflexivity|].
+  destruct (N.eqb d k); [reflexivity | exact IH].
+Qed.
+
+Lemma rm_max_del : forall s u r, rm_max (fst (rm_delete_link_x s u r)) = rm_max s.
+Proof. intros s u r. exact (rm_max_step s (ODel u r)). Qed.
+
+Lemma crm_del_rm : forall x u r, crm_rm (fst (crm_delete_link_x x u r)) = fst (rm_delete_link_x (crm_rm x) u r).
+Proof. intros. unfold crm_delete_link_x. destruct (rm_delete_link_x (crm_rm x) u r). reflexivity. Qed.
+
+Lemma cdm_del_fst : forall s u r d, fst (cdm_delete_link_x s u r d) = cdm_put s d (fst (crm_delete_link_x (cdm_get s d) u r)).
+Proof. intros. unfold cdm_delete_link_x. destruct (crm_delete_link_x (cdm_get s d) u r). reflexivity. Qed.
+
+Lemma cdm_inv_step : forall s o, cdm_inv s -> cdm_inv (cdm_step s o) /\ cdm_max (cdm_step s o) = cdm_max s.
+Proof.
+  intros s [u r d|u r d| |d|u r d f|u r d ps] I; simpl.
+  - split; [|reflexivity]. apply cdm_inv_put; [exact I|]. simpl. apply cdm_get_max. exact I.
+  - rewrite cdm_del_fst. split; [|reflexivity]. apply cdm_inv_put; [exact I|].
+    rewrite crm_del_rm, rm_max_del. apply cdm_get_max. exact I.
+  - split; [|reflexivity]. intros d rm H. discriminate.
+  - split; [|reflexivity]. apply cdm_inv_put; [exact I | apply cdm_get_max; exact I].
+  - split; [|reflexivity]. intros d0 rm. unfold cdm_add_cond. simpl. rewrite (alookup_map (fun x => crm_add_cond x u r d f)).
+    destruct (alookup d0 (cdm_cache s)) eqn:C; simpl; [|discriminate].
+    intro H; inversion H; subst. simpl. apply (I d0 c C).
+  - split; [|reflexivity]. intros d0 rm. unfold cdm_set_params. simpl. rewrite (alookup_map (fun x => crm_set_params x u r d ps)).
+    destruct (alookup d0 (cdm_cache s)) eqn:C; simpl; [|discriminate].
+    intro H; inversion H; subst. simpl. apply (I d0 c C).
+Qed.
+
+Lemma cdm_get_map : forall (g : crm_state -> crm_state) s d,
+  (forall x, crm_rm (g x) = crm_rm x) ->
+  crm_rm (cdm_get (mkCDM (cdm_max s) (map (fun e => (fst e, g (snd e))) (cdm_cache s))) d) = crm_rm (cdm_get s d).
+Proof.
+  intros g s d Hg. unfold cdm_get. simpl. rewrite alookup_map.
+  destruct (alookup d (cdm_cache s)); simpl; [apply Hg | reflexivity].
+Qed.
+
+(* one step: the link part of domain d's manager moves like a plain manager under the projection *)
+Lemma cdm_step_proj : forall s o d, cdm_inv s ->
+  crm_rm (cdm_get (cdm_step s o) d) = rm_run (crm_rm (cdm_get s d)) (cdm_proj d [o]).
+Proof.
+  intros s [u r d0|u r d0| |d0|u r d0 f|u r d0 ps] d I; unfold cdm_proj.
+  - simpl. unfold cdm_add_link. rewrite cdm_get_put. rewrite (N.eqb_sym d d0).
+    destruct (N.eqb d0 d) eqn:E; [|reflexivity]. apply N.eqb_eq in E. subst. reflexivity.
+  - simpl. rewrite cdm_del_fst, cdm_get_put. rewrite (N.eqb_sym d d0).
+    destruct (N.eqb d0 d) eqn:E; [|reflexivity]. apply N.eqb_eq in E. subst. simpl. apply crm_del_rm.
+  - change (crm_rm (cdm_get (cdm_step s KClear) d)) with (rm_empty (cdm_max s)).
+    change (rm_empty (cdm_max s) = rm_clear (crm_rm (cdm_get s d))).
+    unfold rm_clear, rm_empty. rewrite (cdm_get_max s d I). reflexivity.
+  - simpl. rewrite cdm_get_put. destruct (N.eqb d d0) eqn:E; [|reflexivity]. apply N.eqb_eq in E. subst. reflexivity.
+  - apply (cdm_get_map (fun x => crm_add_cond x u r d0 f)). reflexivity.
+  - apply (cdm_get_map (fun x => crm_set_params x u r d0 ps)). reflexivity.
+Qed.
+
+Lemma cdm_proj_cons : forall d o ops, cdm_proj d (o :: ops) = cdm_proj d [o] ++ cdm_proj d ops.
+Proof. intros. unfold cdm_proj. simpl. rewrite app_nil_r. reflexivity. Qed.
+
+Lemma rm_run_app : forall a b s, rm_run s (a ++ b) = rm_run (rm_run s a) b.
+Proof. intros. unfold rm_run. apply fold_left_app. Qed.
+
+Lemma cdm_run_proj : forall ops s d, cdm_inv s ->
+  crm_rm (cdm_get (cdm_run s ops) d) = rm_run (crm_rm (cdm_get s d)) (cdm_proj d ops).
+Proof.
+  induction ops as [|o ops IH]; intros s d I; [reflexivity|].
+  change (cdm_run s (o :: ops)) with (cdm_run (cdm_step s o) ops).
+  rewrite IH by (apply cdm_inv_step; exact I).
+  rewrite (cdm_step_proj s o d I), (cdm_proj_cons d o ops), rm_run_app. reflexivity.
+Qed.
+
+Lemma cdm_inv_empty : forall L, cdm_inv (cdm_empty L).
+Proof. intros L d rm H. discriminate. Qed.
+
+(* in the conditional domain manager too, only the assignments recorded for the queried domain count *)
+Theorem cdm_links_scoped : forall L ops d,
+  crm_rm (cdm_get (cdm_run (cdm_empty L) ops) d) = rm_run (rm_empty L) (cdm_proj d ops).
+Proof. intros. rewrite cdm_run_proj by apply cdm_inv_empty. reflexivity. Qed.
+
+Theorem cdm_reach_history : forall (cond : N -> list N -> bool) L ops a b d,
+  no_double_add (cdm_proj d ops) = true ->
+  let m := cdm_get (cdm_run (cdm_empty L) ops) d in
+  (cdm_has_link cond (cdm_run (cdm_empty L) ops) a b d = true <->
+   exists k, k <= L /\
+     path (fun x y => In (x, y) (links_spec (cdm_proj d ops)) /\ crm_pass cond m x y d = true) k a b).
+Proof.
+  intros cond L ops a b d G m. rewrite cdm_domain_scoped. fold m.
+  assert (E : crm_rm m = rm_set L (links_spec (cdm_proj d ops))).
+  { unfold m. rewrite cdm_links_scoped. apply edges_are_links. exact G. }
+  unfold crm_edge. rewrite E. simpl. tauto.
+Qed.
